@@ -74,11 +74,17 @@ def one(ctx, scenario, seed, tags, dump_every=None, window=None):
     if cut < 0:
         return {"scenario": scenario, "seed": seed, "error": "emitted file has no result definition"}
     txt = txt[:cut]
-    txt = txt.replace("From Model Require Import Obs.", "From Model Require Import Obs.\nFrom Corr Require Import Chain.", 1)
+    txt = txt.replace("From Model Require Import Obs.", "From Model Require Import Obs.\nFrom Corr Require Import Chain Api.", 1)
     tl = "[" + "; ".join(str(t) for t in tags) + "]"
     txt += ("Definition REP := Eval vm_compute in report %s cfg_%s chain_%s obs_%s.\n" % (tl, ident, ident, ident))
     for f in ("cr_full", "cr_proj", "cr_nonneg", "cr_applied", "cr_rates_immutable", "cr_history_replays"):
         txt += "Definition V_%s := Eval vm_compute in %s REP.\nPrint V_%s.\n" % (f, f, f)
+    has_api = ("Definition api_%s " % ident) in txt
+    if has_api:
+        # the history queries of the real API layer against Model/Api.v on the model's final state (Corr/Api.v)
+        txt += "Definition AREP := Eval vm_compute in api_check cfg_%s chain_%s api_%s status_%s.\n" % (ident, ident, ident, ident)
+        for f in ("ar_ran", "ar_cases", "ar_bad", "ar_bad_status", "ar_wf"):
+            txt += "Definition A_%s := Eval vm_compute in %s AREP.\nPrint A_%s.\n" % (f, f, f)
     open(vfile, "w").write(txt)
     rc, so, se = ctx.run(["coqc"] + ctx.coq_qargs() + ["-w", "-inexact-float", vfile], cwd=d, timeout=1500, check=False, quiet=True)
     # the compiled file is large and of no further use
@@ -100,6 +106,22 @@ def one(ctx, scenario, seed, tags, dump_every=None, window=None):
             res[f] = parse_mismatch(v)
         else:
             res[f] = (v == "true")
+    if has_api:
+        api = {}
+        for f in ("ar_ran", "ar_cases", "ar_bad", "ar_bad_status", "ar_wf"):
+            m = re.search(r"A_%s\s*=\s*(.*?)\n\s*:\s" % f, so, re.S)
+            api[f] = " ".join(m.group(1).split()) if m else "?"
+        res["api"] = {"model_ran": api["ar_ran"] == "true", "cases": int(re.sub(r"[^0-9]", "", api["ar_cases"]) or 0),
+                      "disagreeing_queries": [int(x) for x in re.findall(r"-?\d+", api["ar_bad"])],
+                      "disagreeing_status": [int(x) for x in re.findall(r"-?\d+", api["ar_bad_status"])],
+                      "history_tables_well_formed": api["ar_wf"] == "true",
+                      "unparsed": [f for f in api if api[f] == "?"]}
+        if res["api"]["disagreeing_queries"]:
+            # keep the text of the first disagreeing case for the replay file
+            cases = re.findall(r"^  \(\{\| q_field := .*$", txt, re.M)
+            i = res["api"]["disagreeing_queries"][0]
+            if i < len(cases):
+                res["api"]["first_disagreeing_case"] = cases[i][:1500]
     try:
         os.remove(vfile)
     except OSError:
